@@ -357,6 +357,18 @@ CLAIMS = {
              "commits). That a loaded key's halves agree is decided only at the site where the code checks it.",
         technique="exception-escape analysis over the call graph with a frozen catalogue + length-guard dataflow for subscripts + CFG dominance",
         note="operations outside the catalogue are assumed total: an uncatalogued partial operation is a missed escape, never a false alarm"),
+    "C38": dict(
+        text="Partial: exception-escape analysis over the transport thread - the closure of Transport.run through every "
+             "dispatch table (both roles, GSS), every kex engine and the banner check (166 functions); run()'s generic "
+             "handlers only record what arrives, so an escape there is an escape of get_exception / start_client / auth_*. "
+             "Only SSHException subclasses, EOFError and OSError may arrive. Sources: explicit raises, strict UTF-8 decodes, "
+             "point / key constructors, tables indexed by a value out of a message without a membership guard, "
+             "constant-index subscripts on split()/sliced data without an established length, asserts - each filtered by "
+             "enclosing handlers (a handler that stores a new SSHException converts; one that stores the same object is "
+             "transparent); no empty message is sent or returned as a reply; every call on a typed receiver resolves. Found "
+             "36 escaping site groups (all fixed, seven fix: commits). GSS-API library errors are not decided.",
+        technique="exception-escape analysis over the call graph with dispatch tables as edges + frozen catalogue + tainted-key dict subscripts + length-guard dataflow + wire-layout emptiness",
+        note="operations outside the catalogue are assumed total; application callbacks are outside the model"),
     "C03": dict(
         text="Exact decision over a finite abstract domain: the framing arithmetic "
              "of Packetizer._build_packet is interpreted from the current AST for every "
